@@ -29,7 +29,9 @@ func (z *zAdapter) Broadcaster() protocol.Broadcaster   { return stubBroadcaster
 
 type stubBroadcaster struct{}
 
-func (stubBroadcaster) SyncInfo() *protocol.SyncInfo                    { return &protocol.SyncInfo{State: protocol.SyncDone} }
+func (stubBroadcaster) SyncInfo() *protocol.SyncInfo {
+	return &protocol.SyncInfo{State: protocol.SyncDone}
+}
 func (stubBroadcaster) CreateMomentum(*nom.MomentumTransaction)         {}
 func (stubBroadcaster) CreateAccountBlock(*nom.AccountBlockTransaction) {}
 
